@@ -219,7 +219,9 @@ def enc_op(op):
 def wire(case):
     if case["kind"] == "cal":
         return ["cal", str(case["lo"]), str(case["cnt"])]
-    return ["seq", chr(case["k"]) + cps(case["now"])] + [enc_op(o) for o in case["ops"]]
+    # k = 2 (a root element from another producer that declares only its own namespace) is k = 0 for the model:
+    # namespace declarations are not part of the modelled structure
+    return ["seq", chr(0 if case["k"] == 2 else case["k"]) + cps(case["now"])] + [enc_op(o) for o in case["ops"]]
 
 
 def show(s):
@@ -260,6 +262,12 @@ def impl_seq(case, schema):
             el = prs.core_properties._element
             for ch in list(el):
                 el.remove(ch)
+        elif case["k"] == 2:
+            # the core-properties part as another producer leaves it when it has written no property yet: the root declares
+            # its own namespace only (no dc / dcterms / xsi declarations for new children to lean on)
+            from pptx.oxml import parse_xml
+            cpp = prs.core_properties
+            cpp._element = parse_xml('<cp:coreProperties xmlns:cp="http://schemas.openxmlformats.org/package/2006/metadata/core-properties"/>')
         else:
             pkg = prs.part.package
             for rid in [r.rId for r in pkg._rels.values() if r.reltype == RT.CORE_PROPERTIES]:
@@ -369,7 +377,7 @@ def w3cdtf_expected(text):
 
 def oracle(ck, case, trace):
     """The property statement on the implementation's own readings."""
-    if case["k"] == 0:
+    if case["k"] in (0, 2):
         exp = ["" if k == "t" else (None if k == "d" else 0) for k in KIND]
     else:
         y, m, d, H, M, S = case["now"]
@@ -824,7 +832,7 @@ def gen_cases(tier, rng):
                 ops.append(("raw", p, 0, rng.choice(REV_TEXTS)))
             else:
                 ops.append(("raw", p, 0, rand_str(rng, rng.randint(0, 300), "mixed")))
-        cases.append(mk(ops, "history", k=1 if rng.random() < 0.15 else 0,
+        cases.append(mk(ops, "history", k=(1 if rng.random() < 0.15 else 2 if rng.random() < 0.2 else 0),
                         now=[rng.randint(1970, 9999), rng.randint(1, 12), rng.randint(1, 28), rng.randint(0, 23), rng.randint(0, 59), rng.randint(0, 59)]))
     # H. default part
     for now in ([2024, 1, 2, 3, 4, 5], [1970, 1, 1, 0, 0, 0], [9999, 12, 31, 23, 59, 59], [2024, 2, 29, 23, 59, 59], [1000, 1, 1, 0, 0, 0]):
